@@ -102,6 +102,25 @@ func (s *sim) drawConfig() {
 		}
 		c.MaxSim = 90 * time.Second
 	}
+	if prof == "lag" {
+		// one validator is cut off long enough to need fast sync when it comes back
+		c.TargetHeight = int64(t.Range("target.lag", 9, 12))
+		c.LagHeights = int64(t.Range("lag.h", 6, 7))
+		c.Crashes, c.Partitions, c.ValChange = 0, 0, false
+		if c.DropPm > 100 {
+			c.DropPm = 20
+		}
+		c.MaxSim = 120 * time.Second
+		c.N = []int{4, 5, 7}[t.Choose("n.lag", 3)]
+		c.Isolate = true
+		if t.Permille("lag.byz", 600) {
+			c.F = 1
+			c.N = 7 // with one validator cut off the others still need +2/3 without depending on the Byzantine one
+			b := s.byz
+			b.active, b.equivocate = true, true
+			b.fastsync = t.Permille("lag.fslies", 400)
+		}
+	}
 	if prof == "byz" || prof == "storm" || prof == "forge" || prof == "fastsync" {
 		// Byzantine validators need n >= 4 (f < n/3)
 		c.N = []int{4, 5, 6, 7}[t.Weighted("n.byz", 5, 2, 1, 3)]
@@ -348,7 +367,15 @@ func (e engine) Run(rc *kit.RunCtx) {
 				}
 			}
 			var laggard *node
-			if s.byz.fastsync {
+			if s.cfg.Isolate {
+				var correct []*node
+				for _, n := range s.nodes {
+					if !n.byz {
+						correct = append(correct, n)
+					}
+				}
+				s.scheduleIsolation(correct[s.tape.Choose("isolated", len(correct))])
+			} else if s.byz.fastsync {
 				var correct []*node
 				for _, n := range s.nodes {
 					if !n.byz {
